@@ -271,6 +271,11 @@ func indexSafe(xs, idx ssa.Value, at ssa.Instruction) bool {
 		}
 		return false
 	}
+	// the index is a header phi every incoming value of which was tested < L on its edge (rotated loops:
+	// pre-test on the initial value, bottom test on the incremented value)
+	if phi, ok := idx.(*ssa.Phi); ok && phiBoundedBy(phi, xs) {
+		return true
+	}
 	// idx < L on a dominating true edge, idx >= 0 by construction (an ascending induction variable from >= 0)
 	blk := at.Block()
 	for d := blk; d != nil; d = d.Idom() {
@@ -289,6 +294,43 @@ func indexSafe(xs, idx ssa.Value, at ssa.Instruction) bool {
 		}
 	}
 	return false
+}
+
+// phiBoundedBy: every edge into the phi comes from a block ending in `if v < L` (true edge to the phi's
+// block) where v is the edge's value (or a constant >= 0 tested as c < L) and L is the length of xs.
+func phiBoundedBy(phi *ssa.Phi, xs ssa.Value) bool {
+	blk := phi.Block()
+	for i, pred := range blk.Preds {
+		v := phi.Edges[i]
+		ifi, ok := pred.Instrs[len(pred.Instrs)-1].(*ssa.If)
+		if !ok || pred.Succs[0] != blk {
+			return false
+		}
+		cmp, ok := ifi.Cond.(*ssa.BinOp)
+		if !ok || cmp.Op != token.LSS || !lenCovers(cmp.Y, xs) {
+			return false
+		}
+		if cmp.X != v {
+			// constants: the tested constant equals the edge constant
+			a, b := affOf(cmp.X, 0), affOf(v, 0)
+			if !(a.ok && b.ok && a.sym == nil && b.sym == nil && a.c == b.c && a.c >= 0) {
+				return false
+			}
+		}
+		// values stay non-negative: constant >= 0 or phi + positive constant
+		av := affOf(v, 0)
+		if !av.ok {
+			return false
+		}
+		if av.sym == nil {
+			if av.c < 0 {
+				return false
+			}
+		} else if av.sym != ssa.Value(phi) || av.c <= 0 {
+			return false
+		}
+	}
+	return len(blk.Preds) > 0
 }
 
 func constInt64(c *ssa.Const) (int64, bool) {
@@ -337,6 +379,11 @@ func lenCovers(bound, xs ssa.Value) bool {
 			return call.Call.Args[0], "rlen", true
 		}
 		return nil, "", false
+	}
+	if mk, ok := xs.(*ssa.MakeSlice); ok && mk.Len == bound {
+		if _, isConst := bound.(*ssa.Const); !isConst {
+			return true // made with exactly this length value
+		}
 	}
 	src, kind, ok := lenArg(bound)
 	if !ok {
